@@ -45,6 +45,8 @@ mod session;
 mod tracker_client;
 mod tracker_resp;
 mod utils;
+#[cfg(feature = "verif")]
+mod verif_io;
 
 pub use crate::error::Error;
 
